@@ -151,7 +151,8 @@ SHORTCUTS = {
     "Tree.clear": ("remove_children", {"self._root", "self.system_root"}, {}),
     "Tree.sort": ("sort_children", {"self._root", "self.system_root"}, {}),
     "Tree.filter": ("filter", {"self._root", "self.system_root"}, {}),
-    "Node.filtered": ("copy", {"self"}, {"add_self": {"True"}}),
+    "Node.filtered": ("copy", {"self"}, {"add_self": {"True"}, "predicate": {"predicate"}}),
+    "Tree.filtered": ("copy", {"self"}, {"predicate": {"predicate"}}),
     "Tree.first_child": ("first_child", {"self._root", "self.system_root"}, {}),
     "Tree.last_child": ("last_child", {"self._root", "self.system_root"}, {}),
     "Tree.calc_height": ("calc_height", {"self._root", "self.system_root"}, {}),
@@ -179,7 +180,7 @@ def _resolves_to_next_sibling_call(ctx: Ctx, w: Func, a: ast.AST) -> Tuple[bool,
     return False, f"`{norm(a)}` is not the next sibling"
 
 
-@rule("SHORTCUT", ["C04", "C07", "C06", "C15"], floor=20, section="3.6")
+@rule("SHORTCUT", ["C04", "C07", "C06", "C08", "C15"], floor=20, section="3.6")
 def shortcut(ctx: Ctx) -> List[Ob]:
     """documented shortcuts call the primitive on the documented receiver with the documented position arguments (append_child: before=None, prepend_sibling: parent.add_child(before=self), Tree.x -> root.x, ...)"""
     obs: List[Ob] = []
@@ -188,6 +189,8 @@ def shortcut(ctx: Ctx) -> List[Ob]:
         props = ["C15"] if q.startswith("TypedTree.first") or q.startswith("TypedTree.last") else ["C04"]
         if callee in ("copy_to", "copy"):
             props = ["C07", "C04"]
+        if q.endswith(".filtered"):
+            props = ["C08"]
         if callee == "visit":
             props = ["C06"]
         calls = [c for c in ctx.env.calls_in[w] if isinstance(c.func, ast.Attribute) and c.func.attr in (callee, "add" if callee == "add_child" else callee)]
